@@ -378,6 +378,7 @@ type FuncContract struct {
 	Uses          []*Clause                // lemma instantiations: use name(args)
 	Asserts       []*Clause
 	OnCall        map[string][]*Clause // per function-valued parameter: obligation at each call (args: arg0, arg1, ...)
+	AssumeCB      map[string][]*Clause // per function-valued parameter: assumed of every result (args: arg0.., result)
 	InlineCallees map[string]bool
 	UseAll        []string // lemmas assumed in universally quantified form
 }
@@ -399,7 +400,7 @@ var clauseKeywords = map[string]bool{
 	"property": true, "model": true, "requires": true, "ensures": true, "loop": true,
 	"inline": true, "trusted": true, "safety": true, "pure": true, "assigns": true,
 	"let": true, "note": true, "method": true, "body": true, "use": true, "opt": true,
-	"assert": true, "purearg": true, "olet": true, "oncall": true, "inlinecall": true, "useall": true,
+	"assert": true, "purearg": true, "olet": true, "assumecb": true, "oncall": true, "inlinecall": true, "useall": true,
 }
 
 // ParseContractFile reads one verif_contracts.go file.
@@ -724,6 +725,19 @@ func (cs *ContractSet) addClause(c *FuncContract, kw, text, file string, line in
 			c.OnCall = map[string][]*Clause{}
 		}
 		c.OnCall[fs[0]] = append(c.OnCall[fs[0]], cl)
+	case "assumecb":
+		fs := strings.Fields(text)
+		if len(fs) < 2 {
+			return fmt.Errorf("assumecb <param> <expr>")
+		}
+		cl, err := mk("assumecb", strings.TrimSpace(text[len(fs[0]):]))
+		if err != nil {
+			return err
+		}
+		if c.AssumeCB == nil {
+			c.AssumeCB = map[string][]*Clause{}
+		}
+		c.AssumeCB[fs[0]] = append(c.AssumeCB[fs[0]], cl)
 	case "inlinecall":
 		if c.InlineCallees == nil {
 			c.InlineCallees = map[string]bool{}
